@@ -340,6 +340,61 @@ def item_lines(ctx, n, env_prob=0.0):
     return out[:n]
 
 
+def theorem_coverage(ctx, cases, groups, relation):
+    """How many of the compared pairs fall under the hypotheses of the C10 / C11 theorems of PC10.v /
+    PC11.v (no option called '-' or '=', no spec-level '--' in the automaton, both lines read cleanly,
+    readings equal / differing by one swap of adjacent occurrences of different options). Evaluated
+    by the extracted model (View.view, View.sane, View.no_dd_graph)."""
+    qs = []
+    for gi, (s, e) in enumerate(groups):
+        c = cases[s]
+        qs.append({"op": "views", "id": "v%d" % gi, "env": c.get("env", {}), "decls": c["root"]["decls"],
+                   "spec": c["root"]["spec"], "argvs": [cases[j]["argv"] for j in range(s, e)]})
+    sm = core.run_model(qs)
+    st = {"pairs": 0, "under_theorem": 0, "not_sane": 0, "spec_dd": 0, "unreadable_or_q1": 0, "other_relation": 0}
+    for gi, (s, e) in enumerate(groups):
+        r = sm.get("v%d" % gi)
+        n = e - s - 1
+        st["pairs"] += n
+        if not isinstance(r, list) or r[0] != "ok":
+            st["other_relation"] += n
+            continue
+        _, sane, nodd, views = r
+        if sane != "1":
+            st["not_sane"] += n
+            continue
+        if nodd != "1":
+            st["spec_dd"] += n
+            continue
+        for j in range(1, len(views)):
+            if views[0] == "none" or views[j] == "none":
+                st["unreadable_or_q1"] += 1
+            elif relation(views[0], views[j]):
+                st["under_theorem"] += 1
+            else:
+                st["other_relation"] += 1
+    return st
+
+
+def rel_same(u1, u2):
+    return u1 == u2
+
+
+def rel_swap(u1, u2):
+    if u1 == u2:
+        return True
+    if len(u1) != len(u2):
+        return False
+    d = [i for i in range(len(u1)) if u1[i] != u2[i]]
+    if len(d) != 2 or d[1] != d[0] + 1:
+        return False
+    i = d[0]
+    a, b = u1[i], u1[i + 1]
+    return (u2[i] == b and u2[i + 1] == a and a[0] == "o" and b[0] == "o" and a[1] != b[1]
+            and all(x[0] != "dd" for x in u1[:i]))
+
+
+
 def check_C10(ctx):
     rng = ctx.rng
     cases, groups = [], []
@@ -392,7 +447,9 @@ def check_C10(ctx):
                               (cases[s]["root"]["spec"], cases[s]["argv"], cases[j]["argv"], a0["outcome"], a0["values"], a1["outcome"], a1["values"]),
                               case=cases[s], variant=cases[j])
     acc = sum(1 for s, e in groups if accepted(res[cases[s]["id"]][0]))
-    ctx.stream("respellings", 0, lines=len(groups), pairs=pairs, accepted_lines=acc, rejected_lines=len(groups) - acc)
+    cov = theorem_coverage(ctx, cases, groups, rel_same)
+    ctx.stream("respellings", 0, lines=len(groups), pairs=pairs, accepted_lines=acc, rejected_lines=len(groups) - acc,
+               theorem_C10_same_reading_same_parse=cov)
     ctx.sample({"spec": cases[0]["root"]["spec"], "base": cases[0]["argv"], "variant": cases[1]["argv"] if len(cases) > 1 else None})
     return ("command lines built from derivations of random --free specs (some with an occurrence or positional deleted or "
             "inserted, so that rejected lines are covered) x every single re-spelling of every occurrence x foldings of "
@@ -447,7 +504,8 @@ def check_C11(ctx):
                 ctx.violation("swap", "spec %r: %r and %r differ: %r %r vs %r %r" %
                               (cases[s]["root"]["spec"], cases[s]["argv"], cases[j]["argv"], a0["outcome"], a0["values"], a1["outcome"], a1["values"]),
                               case=cases[s], variant=cases[j])
-    ctx.stream("adjacent swaps", 0, lines=len(groups), pairs=pairs)
+    cov = theorem_coverage(ctx, cases, groups, rel_swap)
+    ctx.stream("adjacent swaps", 0, lines=len(groups), pairs=pairs, theorem_C11_swapped_readings_same_parse=cov)
     ctx.sample({"spec": cases[0]["root"]["spec"], "base": cases[0]["argv"], "swapped": cases[1]["argv"] if len(cases) > 1 else None})
     return ("command lines as for C10 x every adjacent pair of occurrences of different options swapped (one- and "
             "two-token spellings, and letters inside a folded token); each compared with its base line on the implementation")
